@@ -198,14 +198,34 @@ def _modbus_plus(ck, cx, k, own, ex):
             if e.kind == 'cond' and 'ModbusPlusOperation' in U(e._sub):
                 name = U(e._sub).split('ModbusPlusOperation.')[-1].strip(') ')
                 op = name if e.a else ('ClearStatistics' if name == 'GetStatistics' else 'GetStatistics')
-        msg = st.loc.get((0, 'message'))
+        def wc(e):
+            """number of 16-bit words the response message carries"""
+            if isinstance(e, ast.List):
+                parts = [wc(x) if isinstance(x, ast.Starred) else 1 for x in e.elts]
+                return None if None in parts else sum(parts)
+            if isinstance(e, ast.BinOp) and isinstance(e.op, ast.Add):
+                l, r = wc(e.left), wc(e.right)
+                return None if l is None or r is None else l + r
+            if isinstance(e, ast.Call) and U(e.func).endswith('Plus.encode') and not e.args:
+                return nwords
+            if isinstance(e, ast.Call) and isinstance(e.func, ast.Name) and e.func.id == 'list' and len(e.args) == 1:
+                return wc(e.args[0])
+            if U(e) == 'self.message':
+                return 1
+            return None
         words = None
-        if msg is not None:
-            t = U(msg)
-            if t == 'self.message':
-                words = 1
-            elif t.startswith('[self.message] + ') and 'Plus.encode()' in t:
-                words = 1 + nwords
+        rets = [e for e in p.ev if e.kind == 'return' and e.frame.fid == 0]
+        if rets and isinstance(rets[-1].a, ast.Call) and rets[-1].a.args:
+            raw = rets[-1].a.args[0]
+            sub = getattr(rets[-1], '_sub', None)
+            words = wc(sub.args[0]) if isinstance(sub, ast.Call) and sub.args else None
+            if words is not None and isinstance(raw, ast.Name):
+                # in-place growth of the local list before it is handed to the response
+                for e in p.ev:
+                    if e.kind == 'call' and isinstance(e.node.func, ast.Attribute) and e.node.func.attr in ('extend', 'append') \
+                            and isinstance(e.node.func.value, ast.Name) and e.node.func.value.id == raw.id and e.node.args:
+                        extra = wc(e._sub.args[0]) if e.node.func.attr == 'extend' else 1
+                        words = None if extra is None or words is None else words + extra
         actual[op] = (1 + 2 + 2 * words) if words is not None else None
     for op in sorted(set(preds) | set(actual), key=str):
         ck.sample({'request': k.name, 'operation': op, 'predicted': preds.get(op), 'actual': actual.get(op)})
